@@ -25,9 +25,11 @@ func init() {
 // ---------- C04 totality ----------
 
 // totalityFailure runs every entry point on doc; returns "" or a description of the first failure.
+var deepWatchdog = 20 * time.Second
+
 func totalityFailure(doc []byte, allConfigs bool) string {
 	var fail string
-	done := withTimeout(20*time.Second, func() {
+	done := withTimeout(deepWatchdog, func() {
 		res := parseMem(doc)
 		if res.err != "" {
 			fail = "Parse: " + res.err
@@ -138,10 +140,16 @@ func runC04(c *Ctx) {
 	})
 	c.fam("exhaustive", "maxlen", max)
 	// deep nesting
+	// (parsing a list or quote nested d deep costs time quadratic in d: the watchdog of this family is scaled)
 	depth := 2000
 	if !c.quick() {
-		depth = 20000
+		depth = 8000
 	}
+	deepWatchdog = 20 * time.Second
+	if !c.quick() {
+		deepWatchdog = 240 * time.Second
+	}
+	defer func() { deepWatchdog = 20 * time.Second }()
 	for _, unit := range []string{"> ", "- ", "1. ", "[", "*a ", "_a ", "<a ", "`", "![", "**", "> - ", "(", "[a](", "\\", "&", "<!--", "  "} {
 		for _, tail := range []string{"", "a", "a\n", "]", "\n\n"} {
 			one(0, "deep", []byte(strings.Repeat(unit, depth)+tail))
